@@ -350,6 +350,61 @@ fn run_inner(sc: &J) -> Result<Option<String>, String> {
             }
             Ok(None)
         }
+        // C19: (fresh process) the allocation limit is frozen by its first use: decode something, then try to set it
+        "limit_frozen_by_first_use" => {
+            let schema = Schema::parse_str("\"bytes\"").map_err(|e| e.to_string())?;
+            let _ = apache_avro::from_avro_datum(&schema, &mut &[8u8, 1, 2, 3, 4][..], None).map_err(|e| e.to_string())?;
+            let want = apache_avro::util::DEFAULT_MAX_ALLOCATION_BYTES;
+            let got = apache_avro::util::max_allocation_bytes(16);
+            if got != want { return Ok(Some(format!("after a decode had used the default limit {want}, max_allocation_bytes(16) returned {got}: the limit in force changed"))); }
+            // and the decoders keep applying it
+            let big = { let mut v = vec![200u8, 1]; v.extend(std::iter::repeat(7u8).take(100)); v };
+            if apache_avro::from_avro_datum(&schema, &mut &big[..], None).is_err() { return Ok(Some("a 100-byte value is rejected although the limit in force is the default".into())); }
+            Ok(None)
+        }
+        // C19: (fresh process) first set wins and is what every guard applies: limit L accepts L bytes, rejects L+1
+        "limit_first_set_wins" => {
+            let l = sc["limit"].as_u64().unwrap_or(64) as usize;
+            let got = apache_avro::util::max_allocation_bytes(l);
+            if got != l { return Ok(Some(format!("first max_allocation_bytes({l}) returned {got}"))); }
+            let got2 = apache_avro::util::max_allocation_bytes(l + 1000);
+            if got2 != l { return Ok(Some(format!("second call changed the limit: {got2}"))); }
+            let schema = Schema::parse_str("\"bytes\"").map_err(|e| e.to_string())?;
+            let enc = |n: usize| { let mut v = Vec::new(); hk::zig_i64(n as i64, &mut v).unwrap(); v.extend(std::iter::repeat(1u8).take(n)); v };
+            if apache_avro::from_avro_datum(&schema, &mut &enc(l)[..], None).is_err() { return Ok(Some(format!("length {l} == limit is rejected"))); }
+            if apache_avro::from_avro_datum(&schema, &mut &enc(l + 1)[..], None).is_ok() { return Ok(Some(format!("length {} > limit {l} is accepted", l + 1))); }
+            if hk::safe_len(l).is_err() || hk::safe_len(l + 1).is_ok() { return Ok(Some("safe_len disagrees with the limit in force".into())); }
+            Ok(None)
+        }
+        // C03/C04/C15: write `datums` with `codec` (null|deflate) in blocks of `per_block` values, read back: same values
+        "container_roundtrip" => {
+            let schema = Schema::parse_str(sc["schema"].as_str().ok_or("schema")?).map_err(|e| e.to_string())?;
+            let codec = match sc["codec"].as_str().unwrap_or("null") { "deflate" => apache_avro::Codec::Deflate(Default::default()), _ => apache_avro::Codec::Null };
+            let per_block = sc["per_block"].as_u64().unwrap_or(u64::MAX) as usize;
+            let mut w = apache_avro::Writer::builder().schema(&schema).writer(Vec::new()).codec(codec).build().map_err(|e| e.to_string())?;
+            let mut vals = Vec::new();
+            for (i, d) in sc["datums"].as_array().ok_or("datums")?.iter().enumerate() {
+                let b = crate::hex(d.as_str().unwrap_or(""));
+                let v = apache_avro::from_avro_datum(&schema, &mut &b[..], None).map_err(|e| e.to_string())?;
+                w.append_value_ref(&v).map_err(|e| e.to_string())?;
+                vals.push(v);
+                if (i + 1) % per_block.max(1) == 0 { w.flush().map_err(|e| e.to_string())?; }
+            }
+            let file = w.into_inner().map_err(|e| e.to_string())?;
+            match apache_avro::Reader::new(&file[..]) {
+                Ok(rd) => match rd.collect::<Result<Vec<Value>, _>>() { Ok(got) if got == vals => Ok(None), Ok(got) => Ok(Some(format!("read back {} values, wrote {}", got.len(), vals.len()))), Err(e) => Ok(Some(format!("file written by the library cannot be read back: {e}"))) },
+                Err(e) => Ok(Some(format!("file cannot be opened: {e}"))),
+            }
+        }
+        // C15: codec round trip on a payload (hex) for codec null|deflate
+        "codec_roundtrip" => {
+            let codec = match sc["codec"].as_str().unwrap_or("null") { "deflate" => apache_avro::Codec::Deflate(Default::default()), _ => apache_avro::Codec::Null };
+            let payload = jhex(sc, "payload");
+            let mut buf = payload.clone();
+            codec.compress(&mut buf).map_err(|e| e.to_string())?;
+            let compressed = buf.clone();
+            match codec.decompress(&mut buf) { Ok(()) if buf == payload => Ok(None), Ok(()) => Ok(Some(format!("decompress(compress(x)) != x for |x| = {}", payload.len()))), Err(e) => Ok(Some(format!("decompress rejects compress(x) (|x| = {}, compressed {:02x?}): {e}", payload.len(), compressed))) }
+        }
         k => Err(format!("unknown scenario kind {k:?}")),
     }
 }
